@@ -359,3 +359,18 @@ Lemma new_types_need_new_firmware : forall ver t rest,
   (ver < 9 -> (t = 8 \/ t = 9 \/ t = 10) -> fw_decode ver 7 0 (t :: rest) = None) /\
   (ver < 8 -> (t = 11 \/ t = 12) -> fw_decode ver 8 0 (t :: rest) = None).
 Proof. intros ver t rest. split; [apply new_types_need_v9|apply go_to_2_needs_v8]. Qed.
+
+(* ---------------------------------------------------------------- sessions *)
+Lemma session_decodes : forall h : list step,
+  Forall2 (fun (st : step) (o : outcome) =>
+             let '(cf, c, en) := st in
+             o = run (impl_action c) cf en /\
+             (c <> CLocShortLpp -> forall p ch b, o = Sent p ch b ->
+                exists aws dws, intended c cf en = Some aws /\
+                                fw_decode (c_ver cf) p ch b = Some (canon_cmd c, dws) /\
+                                map canon_val dws = map canon_val aws))
+          h (run_session impl_action h).
+Proof.
+  induction h as [|[[cf c] en] h IH]; cbn [run_session map]; constructor; [|exact IH].
+  split; [reflexivity|]. intros Hc p ch b Hs. exact (decode_encode c cf en p ch b Hc Hs).
+Qed.
